@@ -150,11 +150,27 @@ def build_doc(etree, d):
     return root
 
 
+def _private_names(cls) -> set[str]:
+    """names of name-mangled private attributes the methods of `cls` refer to (from the code objects)"""
+    out: set[str] = set()
+    pre = f"_{cls.__name__}__"
+    for v in vars(cls).values():
+        f = getattr(v, "__func__", v)
+        code = getattr(f, "__code__", None)
+        if code is not None:
+            out |= {n for n in code.co_names if n.startswith(pre)}
+    return out
+
+
 def model_file(core, root, name="x.capella"):
     mf = core.ModelFile.__new__(core.ModelFile)
     mf.filename = pathlib.PurePosixPath(name)
     mf.root = root
-    mf._ModelFile__ignore_uuid_dups = True  # the id index is rebuilt after a replacement; duplicates only warn
+    # the id index is rebuilt after a replacement; duplicates only warn.  The object is built without __init__, so the
+    # flag is set under every private name of the class that looks like it (the pinned name first)
+    names = {"_ModelFile__ignore_uuid_dups"} | {n for n in _private_names(core.ModelFile) if "dup" in n.lower()}
+    for n in names:
+        setattr(mf, n, True)
     reindex(mf)  # the state a loaded file is in (ModelFile.__init__ ends with this call)
     return mf
 
@@ -314,7 +330,7 @@ class TreeHistory:
         rng, etree, root = self.ctx.rng, self.etree, self.mf.root
         op = rng.choice(["add"] * 9 + ["remove-prefix"] * 7 + ["remove-one"] * 3 + ["xmi-type"] * 3 + ["empty-type"] * 3 + ["ns-tag"] * 3
                         + ["vps"] * 4 + ["comment"] * 4 + ["root-text"] * 3 + ["unused-decl"] * 3 + ["nothing"] * 2
-                        + ["child-decl", "foreign-attr", "shadow"])
+                        + ["child-decl", "foreign-attr", "shadow"] + ["placeholder"] * 6)
         if op == "add":
             p = rand_type_prefix(rng, self._n, root)
             parent = rng.choice(self.elems())
@@ -322,6 +338,33 @@ class TreeHistory:
                 k = etree.SubElement(parent, rng.choice(c01.TAGS))
                 k.set(XSI_T, (p + ":" if rng.random() < 0.95 else p) + "T" + str(rng.randint(0, 9)))
                 k.set("id", "n%d" % rng.randint(0, 10**6))
+        elif op == "placeholder":
+            # a fragment placeholder (what stays in the parent file of a fragmented element): containment tag, xsi:type and
+            # href, no id, no children. Either an existing typed element turns into the placeholder of its own fragment, or
+            # a new one appears; half of the time every OTHER user of its type prefix goes away, so that the namespace is
+            # used by the placeholder alone (the main file of a project fragmented per architecture layer)
+            typed = [e for e in self.elems() if e is not root and type_prefix(e) is not None and e.get("href") is None]
+            k = None
+            if typed and rng.random() < 0.5:
+                k = rng.choice(typed)
+                for c in list(k):
+                    k.remove(c)
+                k.text = None
+                k.set("href", "fragments/f%d.capellafragment#%s" % (rng.randint(0, 9), k.attrib.pop("id", None) or "x"))
+            else:
+                parent = rng.choice([e for e in self.elems() if e.get("href") is None])
+                if parent.text is None:
+                    k = etree.SubElement(parent, rng.choice(c01.TAGS))
+                    k.set(XSI_T, rand_type_prefix(rng, self._n, root) + ":T" + str(rng.randint(0, 9)))
+                    k.set("href", "fragments/f%d.capellafragment#n%d" % (rng.randint(0, 9), rng.randint(0, 10**6)))
+            if k is not None and rng.random() < 0.5:
+                p = type_prefix(k)
+                anc = set(map(id, k.iterancestors()))
+                for e in [e for e in self.elems() if e is not root and e is not k and id(e) not in anc and type_prefix(e) == p]:
+                    if e.getparent() is not None:
+                        e.getparent().remove(e)
+                if not any(type_prefix(e) == p for e in self.elems() if e is not k):
+                    self.out.hit("ns-edit:placeholder-is-sole-user-of-its-prefix")
         elif op == "remove-prefix":
             ps = sorted({type_prefix(e) for e in self.elems() if e is not root and type_prefix(e) is not None})
             if ps:
@@ -607,13 +650,26 @@ def gen_witnesses(ctx, out, cases: list) -> None:
                          "root": ["Project", ZZ, [["{%s}version" % c01.XMI, "2.0"], ["id", "r"]], None, None,
                                   [["ownedExtensions", [], [[XSI_T, "Requirements:Requirement"], ["id", "q"]], None, None, []],
                                    ["ownedX", [], [[XSI_T, "re:CatalogElement"]], None, None, []]]], "post": []}, {CV: "6.1.2"}),
+        # `layerPlaceholderDoc`: the main file of a project whose OA layer lives in its own fragment
+        ("layer-placeholder-keeps-its-namespace",
+         {"pre": [["Capella_Version_5.0.0", None]],
+          "root": ["{http://www.polarsys.org/capella/core/modeller/5.0.0}Project",
+                   NS + [["org.polarsys.capella.core.data.capellamodeller", "http://www.polarsys.org/capella/core/modeller/5.0.0"],
+                         ["org.polarsys.capella.core.data.oa", "http://www.polarsys.org/capella/core/oa/5.0.0"], ["zz", "http://zz"]],
+                   [["{%s}version" % c01.XMI, "2.0"], ["id", "p"]], None, None,
+                   [["ownedModelRoots", [], [[XSI_T, "org.polarsys.capella.core.data.capellamodeller:SystemEngineering"], ["id", "se"]], None, None,
+                     [["ownedArchitectures", [], [[XSI_T, "org.polarsys.capella.core.data.oa:OperationalAnalysis"],
+                                                  ["href", "fragments/OA.capellafragment#oa"]], None, None, []]]]]],
+          "post": []}, {CV: "5.0.0"}),
     ]
     expect = {"undeclared-prefix-kept": lambda iv: "doc" in iv and [p for p, _ in iv["doc"]["root"][1]] == ["xmi", "xsi"],
               "root-text-lost": lambda iv: "doc" in iv and iv["doc"]["root"][3] is None,
               "trailing-comments-reversed": lambda iv: "doc" in iv and [c[0] for c in iv["doc"]["post"]] == ["D", "C"],
               "viewpoint-missing": lambda iv: iv == {"raises": "CorruptModelError"},
               "viewpoint-empty": lambda iv: iv == {"raises": "CorruptModelError"},
-              "non-vacuity": lambda iv: "doc" in iv and [p for p, _ in iv["doc"]["root"][1]] == ["Requirements", "re", "xmi", "xsi"]}
+              "non-vacuity": lambda iv: "doc" in iv and [p for p, _ in iv["doc"]["root"][1]] == ["Requirements", "re", "xmi", "xsi"],
+              "layer-placeholder-keeps-its-namespace": lambda iv: "doc" in iv and sorted(p for p, _ in iv["doc"]["root"][1]) == [
+                  "org.polarsys.capella.core.data.capellamodeller", "org.polarsys.capella.core.data.oa", "xmi", "xsi"]}
     for name, doc, vps in W:
         mf = model_file(core, build_doc(etree, doc))
         iv = impl_update(core, mf, vps)
